@@ -255,6 +255,9 @@ class Rewriter:
             return '((%s)(%s))' % (m.group(1).strip(), args)
         for _ in range(4):
             s = self._balanced_sub('R5', r'\b(?:static_cast|reinterpret_cast|const_cast)\s*<\s*([^<>()]*?(?:<[^<>()]*>)?[^<>()]*?)\s*>\s*(?=\()', mk_cast, s)
+        # extra (spec-local) regex rules: (name, pattern, replacement); applied before the generic assertion/abort rules
+        for name, pat, rep in self.extra:
+            s = self._sub(name, pat, rep, s)
         # R9 XASSERT / ASSERT
         def mk_assert(m, args, whole, pc):
             msg = re.sub(r'[^\w <>=!+\-*/.\[\]]', ' ', ' '.join(args.split()))[:90]
@@ -273,9 +276,6 @@ class Rewriter:
         for mem in self.members:
             s = self._sub('R11', r'\bthis->%s\b' % re.escape(mem), 'self->' + mem, s)
             s = self._sub('R11', r'(?<![\w>.])%s\b' % re.escape(mem), 'self->' + mem, s)
-        # extra (spec-local) regex rules: (name, pattern, replacement)
-        for name, pat, rep in self.extra:
-            s = self._sub(name, pat, rep, s)
         # R3 direct-initialisation `T v(e)` -> `T v = (e)`
         if T:
             def mk_decl(m, args, whole, pc):
